@@ -158,6 +158,8 @@ func VH_C15D() {
 		vAssume(msg[i] >= 0x20 && msg[i] < 0x7f || msg[i] == '\n')
 	}
 	vAssume(len(msg) > 0 && msg[0] != '\n' && msg[0] != ' ')
+	// plus 0..2 further trailing newlines: std log passes them through, the bridge removes exactly one
+	msg += []string{"", "\n", "\n\n"}[vChoose(3)]
 	var bridge *log.Logger = NewLogLogger(lgi, b)
 	bridge.Print(msg)
 	want := vSpecEnabled(L, b, dbg, nil)
@@ -176,9 +178,15 @@ func VH_C15D() {
 	p := rec.evs[0].P
 	body := strings.TrimSuffix(msg, "\n")
 	vAssert(strings.Contains(p, `level="`+b.String()+`"`), "C15: the bridged record carries the bridge's severity")
-	if !strings.ContainsAny(body, "\"\\\n") {
-		vAssert(strings.Contains(p, `msg="`+body+`"`), "C15: the bridged message is the text minus its trailing newline")
+	pairs, okp := vLogfmtParse(strings.TrimSuffix(p, "\n"))
+	found := false
+	for _, pr := range pairs {
+		if pr.k == "msg" && !found {
+			found = true
+			vAssert(pr.v == body, "C15: the bridged message is the text minus its trailing newline")
+		}
 	}
+	vAssert(okp && found, "C15: the bridged record is a well-formed logfmt line with a msg pair")
 }
 
 // VH_C15E: wherever a log/slog level is accepted, the four standard levels
